@@ -203,9 +203,11 @@ theorem weightedAverage_eq (ps ws : List K) (hl : ps.length = ws.length)
   · rw [if_pos hn, if_pos (vW_zero_of_no_valid ps ws hn)]
   · rw [if_neg hn, hren]
     by_cases hz : vW ps ws = 0
-    · rw [if_pos hz, if_pos (by rw [hz]; exact ⟨le_refl _, le_refl _⟩)]
+    · rw [if_pos hz, if_pos (by rw [hz]; exact Or.inl ⟨le_refl _, le_refl _⟩)]
     · have hpos : 0 < vW ps ws := lt_of_le_of_ne (vW_nonneg ps ws hw) (Ne.symm hz)
-      rw [if_neg hz, if_neg (by intro hc; exact absurd hc.1 (not_le.mpr hpos))]
+      rw [if_neg hz, if_neg (by
+        intro hc
+        rcases hc with hc | hc <;> exact absurd hc.1 (not_le.mpr hpos))]
       have hone : vW ps ws / vW ps ws = 1 := div_self hz
       rw [hone, if_neg (by norm_num)]
 
@@ -319,7 +321,7 @@ theorem weightedAverage_as_written (ps ws : List K) (v : K) (h : weightedAverage
         · rw [if_pos hn] at h
           left; exact (Except.ok.inj h).symm
         · rw [if_neg hn] at h
-          by_cases hz : (1 : K) - rW ps ws ≤ 0 ∧ 0 ≤ (1 : K) - rW ps ws
+          by_cases hz : ((1 : K) - rW ps ws ≤ 0 ∧ 0 ≤ (1 : K) - rW ps ws) ∨ (vW ps ws ≤ 0 ∧ 0 ≤ vW ps ws)
           · rw [if_pos hz] at h
             left; exact (Except.ok.inj h).symm
           · rw [if_neg hz] at h
